@@ -6,8 +6,9 @@ import Proofs.XdrEnc
 namespace Pydap.Xdr
 open Pydap.XdrSpec
 
-theorem read_append (n : Nat) (a r : Bytes) (h : a.length = n) : read n (a ++ r) = (a, r) := by
-  simp [read, List.take_left' h, List.drop_left' h]
+theorem read_append (n : Nat) (a r : Bytes) (h : a.length = n) : read n (a ++ r) = .ok (a, r) := by
+  have : ¬ (a.length + r.length < n) := by omega
+  simp [read, List.take_left' h, List.drop_left' h, this]
 
 theorem readLen_be (n : Nat) (r : Bytes) (h : n < 2147483648) : readLen (be 4 n ++ r) = .ok (n, r) := by
   have hw : (dtypeItemsize Gen.DAP2_ARRAY_LENGTH_NUMPY_TYPE).getD 0 = 4 := by decide
@@ -210,7 +211,7 @@ theorem decRowsSimple_enc (cs : List Tmpl) (hf : simpleCols cs = true) :
     have ih := decRowsSimple_enc cs hf rs f r h.2 (by simp at hfu; omega)
     rw [e, ← start_eq]
     simp [decRowsSimple, read_append 4 Gen.START_OF_SEQUENCE _ rfl, read_append _ (encs cs ds) _ h2,
-      h1, h2, ih]
+      h1, ih]
   | .scalar _ :: _, _ + 1, _, h, _ => by simp [WFrows] at h
   | .array _ :: _, _ + 1, _, h, _ => by simp [WFrows] at h
   | .rows _ :: _, _ + 1, _, h, _ => by simp [WFrows] at h
